@@ -54,7 +54,8 @@ def signature(fn):
     return out
 
 
-def pair_harness(C24, sp, single_fn, batch_fn, table, pair, variant, rename=None, extra_tables=None, skip_cols=()):
+def pair_harness(C24, sp, single_fn, batch_fn, table, pair, variant, rename=None, extra_tables=None, skip_cols=(), batch_prefix=None,
+                 default_equiv=None):
     rename = rename or {}
 
     def col(name, sort=R, nan=False):
@@ -70,8 +71,8 @@ def pair_harness(C24, sp, single_fn, batch_fn, table, pair, variant, rename=None
         net = netmodel.Net(tabs, strict=True)
         ssig, bsig = signature(single_fn), signature(batch_fn)
         bnames = [n for n, _, _ in bsig]
-        s_pos, b_pos, s_kw, b_kw = [], [], {}, {}
-        k = 0
+        s_pos, b_pos, s_kw, b_kw = [], list(batch_prefix() if batch_prefix else []), {}, {}
+        k = len(b_pos)
         for name, kind, has_default in ssig:
             if not has_default:
                 bname = bnames[k] if k < len(bnames) else None
@@ -111,6 +112,17 @@ def pair_harness(C24, sp, single_fn, batch_fn, table, pair, variant, rename=None
         cols = [c for c in dict.fromkeys(list(single.keys_list()) + list(batch.keys_list())) if c not in DESCRIPTIVE and c not in skip_cols]
         if len(cols) < 2:
             raise EngineError(f"{pair}: only {cols} captured")
+        for c, dflt in (default_equiv or {}).items():
+            # a missing value and the documented default are the same constraint (stated per pair): both sides are completed with the default
+            for d in (single, batch):
+                pr = d.presence(c)
+                if pr is False:
+                    d.set(c, XV.of(dflt))
+                elif pr is True:
+                    v = C24._elem(d.raw(c))
+                    d.set(c, C24._opt(v if isinstance(v, XV) else XV.of(v) if isinstance(v, float) else v, dflt))
+                else:
+                    raise EngineError(f"{pair}: symbolic presence of {c}")
         C24.compare_entries(p, f"{pair}[{variant}]", single, batch, cols, pair)
     return h
 
@@ -130,9 +142,21 @@ PAIRS = [
 # parameters, validation of df / tap2 arguments in the single call only) -- see DESIGN.md A.4 / A.6
 
 
+def add_bus(vc, C24, sp):
+    """create_bus / create_buses: the batch call takes the number of buses first; NaN voltage limits and the documented defaults 0.0 / 2.0 are
+    the same OPF constraint (build_bus copies the column, NaN limits are replaced by these defaults)"""
+    sf, bf = C + "bus_create:create_bus", C + "bus_create:create_buses"
+    for variant in ("given", "defaults"):
+        vc.explore(f"create_bus / create_buses [{variant}]",
+                   pair_harness(C24, sp, sf, bf, "bus", "bus-par", variant, batch_prefix=lambda: [SV(z3.Int("nr_buses"))],
+                                default_equiv={"min_vm_pu": 0.0, "max_vm_pu": 2.0}), max_paths=100)
+
+
 def add(vc, C24, sp, only=None):
     import os
     only = only or os.environ.get("C24_ONLY")
+    if not only or "bus" in only.split(","):
+        add_bus(vc, C24, sp)
     for table, sf, bf in PAIRS:
         if only and table not in only.split(","):
             continue
